@@ -5,7 +5,7 @@
 (* against the functions of Dispatch.  Every line is independent.          *)
 (*  d4 {in, parsed, panic, out{sent, n, type, opcode, eq*, pgi, pbc, pci,  *)
 (*      pyi, port, woob, ifindex, l2, frame, fdmac, fdip, fsport, fdport,  *)
-(*      fif, fsmac}}                                                        *)
+(*      fif, fsmac, fwire, fpay}}                                           *)
 (*  d6 {in, parsed, panic, out{sent, n, type, eqxid, eqcid, rapid, layers, *)
 (*      mirror, dstsame, woob, ifindex}}                                   *)
 (*  chain {proto, bs, invoked, saw, reqsame, sent, n, out, panic}          *)
@@ -47,7 +47,8 @@ TraceD4 ==
             /\ exp.pinned  => o.woob /\ o.ifindex = exp.ifindex                    \* bound interface, else arrival interface
             /\ ~exp.pinned => ~o.woob                                             \* routable destinations are not pinned
             /\ (o.l2 /\ o.frame) => /\ o.fdmac /\ o.fdip /\ o.fsport = 67 /\ o.fdport = 68
-                                   /\ o.fif = exp.ifindex /\ o.fsmac)                  \* the frame leaves on THAT interface, from its address
+                                   /\ o.fif = exp.ifindex /\ o.fsmac                   \* the frame leaves on THAT interface, from its address
+                                   /\ o.fwire /\ o.fpay)                               \* a frame a receiver accepts, carrying the reply
 
 In6Of(e) == [parse |-> e.parsed, depth |-> e.in.depth, outer |-> e.in.outer, itype |-> e.in.itype, cid |-> e.in.cid,
              rapid |-> e.in.rapid, src |-> e.in.src, final |-> e.in.final, bound |-> e.in.bound, oobif |-> e.in.oobif]
